@@ -5,8 +5,11 @@ DEFAULT_TRUSTED = [
     "Go runtime, math/big, IAVL, tm-db/goleveldb, Tendermint ABCI types",
 ]
 
-def camp(profile, q, t):
-    return {'profile': profile, 'n_quick': q, 'n_thorough': t}
+def camp(profile, q, t, extra=None):
+    c = {'profile': profile, 'n_quick': q, 'n_thorough': t}
+    if extra:
+        c['extra'] = list(extra)   # additional harness flags for this campaign
+    return c
 
 PROPS = {}
 HOOK_COMMITS = ['bda95c1', '20cf912', '8f0e177']
@@ -14,9 +17,15 @@ LEDGER_THMS = ['Minter.balanced_preserves', 'Minter.planOf_balanced', 'Minter.Mo
 MODEL_NOTE = 'Theorems are about the Lean model (MinterModel); transaction types not yet in the model are listed in DESIGN.md and are covered only by the monitors evaluated on the real node'
 PROPS['C01'] = {
     'level': 'proof',
-    'modules': ['MinterProofs.Props.C01'],
-    'theorems': LEDGER_THMS + ['Minter.C01_deliver_conserves', 'Minter.C01_block_body_conserves'],
-    'campaigns': [camp('ledger', 16, 200), camp('orders', 8, 100), camp('staking', 8, 100)],
+    'modules': ['MinterProofs.Props.C01', 'MinterProofs.Props.C01Block'],
+    'theorems': LEDGER_THMS + ['Minter.C01_deliver_conserves', 'Minter.C01_block_body_conserves',
+                 # block level (block builder): BeginBlock ; transactions ; EndBlock, any run of blocks
+                 'Minter.endBlock_conserves', 'Minter.C01_block_books', 'Minter.C01_block', 'Minter.C01_run_books', 'Minter.C01_main',
+                 'Minter.deliverTxs_books', 'Minter.valUpdateStep_books', 'Minter.beginBlock_mint', 'Minter.payoutsOf_eq_payoutAll',
+                 'Minter.endDefect_zero_overMint', 'Minter.endDefect_zero_lost', 'Minter.endDefect_zero_valUpdate', 'Minter.carry_zero',
+                 'Minter.C01_block_example', 'Minter.C01_defect_example'],
+    # the 64-block orders campaign reaches order expiry (first possible at block 42 of a history) also in the quick tier
+    'campaigns': [camp('ledger', 16, 200), camp('orders', 8, 100), camp('staking', 8, 100), camp('orders', 8, 24, extra=['-histblocks', '64'])],
     'mismatch_counts': True,
     'assumptions': ['the node\'s own export at every commit (re-read from disk) is the abstraction function', MODEL_NOTE],
 }
@@ -330,7 +339,7 @@ PROPS['C14'] = {
                  'Minter.Lob.Consumed.forall₂', 'Minter.Lob.Consumed.not_last_full', 'Minter.Lob.credits_exact',
                  'Minter.Lob.dust_closed_refund', 'Minter.Lob.partial_stays', 'Minter.Lob.cancel_exact', 'Minter.Lob.cancel_owner_only',
                  'Minter.Lob.cancel_once', 'Minter.Lob.cancel_returns_unfilled', 'Minter.Lob.expire_exact', 'Minter.Lob.expire_once'],
-    'campaigns': [camp('orders', 24, 200)],
+    'campaigns': [camp('orders', 24, 200), camp('orders', 8, 24, extra=['-histblocks', '64'])],   # 64 blocks: order expiry is reached on the node
     'modes': ORD_REPLAYS + [ORD_MODE],
     'assumptions': ['RN53 (the correctly rounded big.Float quotient behind the sort key) is differential-tested against the real CalcPriceSell and big.Rat.Float64, not proved against a real-number specification',
                     'CalculateAddAmountsForPrice (amount0 of a curve step towards an order price) is an oracle: the theorems hold for every answer; the harness passes the real function\'s answers',
@@ -429,7 +438,7 @@ PROPS['C11'] = {
 # ---------------------------------------------------------------------------------------------------------------
 # What is claimed (MANIFEST.json is generated from this by tools/gen_manifest.py)
 CLAIMS = {
- 'C01': "Lean theorems: every plan the model's DeliverTx can produce is built from value moves that are balanced by construction (Move.balanced, planOf_balanced), and checked application of a balanced plan preserves volume=holdings for every custom coin and the base-coin total up to recorded emission (balanced_preserves, C01_deliver_conserves, C01_block_body_conserves); for all states, transactions and oracle answers. Tie: model executed next to the real node on generated histories; monitors volumesOk/baseDeltaOk (the same Lean definitions) evaluated on the node's export at every commit.",
+ 'C01': "Lean theorems: every plan the model's DeliverTx can produce is built from value moves that are balanced by construction (Move.balanced, planOf_balanced), and checked application of a balanced plan preserves volume=holdings for every custom coin and the base-coin total up to recorded emission (balanced_preserves, C01_deliver_conserves, C01_block_body_conserves); for all states, transactions and oracle answers. Tie: model executed next to the real node on generated histories; monitors volumesOk/baseDeltaOk (the same Lean definitions) evaluated on the node's export at every commit. Block level (MinterModel/Block.lean: endBlock follows Blockchain.EndBlock line by line - return of dropped validators' rewards, accrual, order expiry, PayRewardsV5Fix, the emission step, updateValidators with recalculation / kicks / pruning / validator-set replacement; blockRun = beginBlock ; transactions ; endBlock; runBlocks = any list of blocks): for every state, every bip-value oracle and tally result, with no other hypothesis, EndBlock changes volume - holdings of every custom coin only by the explicitly named dropped updates and the base total by exactly the emission delta plus five named defect terms (endBlock_conserves); the terms are the five places where the code of EndBlock can mint or burn outside the emission counter, each the amount the code really creates or destroys: overMint (reward > safeReward below the cap: the pot gets the reward, the counter only the safe reward), lost (an x3 payment below 1 is subtracted from the remainder and skipped), dropped (a pending update with a non-positive value that finds no stake to merge into is filtered out), goneNonPos (SetNewValidators moves only positive accumulated rewards of leaving validators to the slashed total) and carry (old validators and selected candidates are matched by key); each is zero under an invariant proved elsewhere - reward <= safeReward (C28) or cap reached, PayOK of every payout input (C19), no negative pending update / accumulated reward, pairwise different public keys (endDefect_zero_overMint, endDefect_zero_lost, endDefect_zero_valUpdate, carry_zero); any transactions under any oracle leave the books and the emission unchanged (deliverTxs_books), BeginBlock leaves the emission counter alone (beginBlock_mint), so across a whole block and across ANY run of blocks from a state with the invariant, if no EndBlock of the run reports a defect, volume = holdings for every custom coin and base total - emission are preserved (C01_block_books, C01_block, C01_run_books, C01_main; kernel-evaluated examples C01_block_example: a payout block with zero defect, C01_defect_example: overMint = 30). Block-level tie: on every EndBlock of every campaign the driver runs endBlock on the node's live state before the block and compares balances, orders, frozen funds, stakes / updates / status of candidates, validators, coins, slashed total, fee pool and waitlist with the live state after it and the emission counter with the next commit (MISMATCH C01 end ...), and reports VIOL C01 end-defect when the model's run of that EndBlock creates or destroys value; payoutsOf_eq_payoutAll shows the payouts used are the function the valid mode ties to the node; a 64-block orders campaign reaches order expiry in the quick tier. Partial: 'no defect reported' is a hypothesis on the run (the invariants that imply it are not all proved preserved by every transaction type: C02 is partial); bip values of the recalculation are abstract (C17); pre-v3.3.0 payout versions are not modelled.",
  'C03': "Lean theorems C03_reject_fee_only and C04_nonce_effect: a rejected DeliverTx makes fee moves only and leaves every nonce unchanged; an accepted one bumps exactly the sender's nonce by one. Monitors on the node: after every rejected DeliverTx the live projection may only change in the fee coin for the payer/burn address/pool/reserve.",
  'C04': "Lean theorems C04_accept_in_order, C04_nonce_effect, C04_replay_rejected: accepted => nonce = stored+1 and chain id matches; any transaction whose nonce is not above the stored one is rejected by the prologue with no moves (state unchanged). Monitors on the node check the same on every delivered transaction incl. replays of earlier bytes.",
  'C05': "Lean theorems C05_balance_only_sender / C05_moves_need_authorization / move_debit_guard: no DeliverTx outcome lowers the balance of an account other than its sender, and moves happen only after the signature policy (single signature or distinct multisig owners reaching the threshold) passed. Monitors on the node: every balance/stake/waitlist decrease during a DeliverTx must belong to the sender (or the check issuer for RedeemCheck).",
